@@ -35,8 +35,9 @@ type c09Name struct {
 // is only used outside the exhaustive depth enumeration.
 var c09Names = []c09Name{{"a", []string{"k", "j"}}, {"b", []string{"k"}}, {"c", nil}, {"d", []string{"k", "j", "i"}}}
 
-// key value codes: 0 missing, 1 "*", 2 "1", 3 "2", 4 "3"
-var c09ValStr = []string{"", "*", "1", "2", "3"}
+// key value codes: 0 missing, 1 "*", 2 "1", 3 "" (the empty string is an ordinary
+// definite value: it must not be confused with a missing key), 4 "3"
+var c09ValStr = []string{"", "*", "1", "", "3"}
 
 type c09SKey struct {
 	k string
